@@ -282,16 +282,54 @@ def header_rule(chk, P, rule="R-HDR"):
     # different, mmap is unreachable and the call fails with EINVAL (decided by seeded evaluation; the comparison may sit in
     # adopt itself or in a helper that receives &header)
     mm_ids = set(c["id"] for c in a.calls("mmap"))
+    # where the header is READ: the function that owns a local of the header type -- adopt itself, or a helper it calls with its
+    # own arguments (the whole read-and-compare step extracted).  In the second case the helper is evaluated with the header seeded
+    # and its parameters bound to adopt's arguments, and adopt is explored with the helper's result forced to what it returned.
+    def header_owner():
+        for g in [a] + [P.func(c["fn"]) for c in a.calls() if c.get("fn") and u.func(c["fn"]) is not None]:
+            if g is None or g.entry is None:
+                continue
+            for x9 in g.walk():
+                if x9["k"] == "Var" and g.unit.types[x9["t"]].get("rec") == "hwloc_shmem_header":
+                    return g, x9["n"]
+        return None, None
+    H, hvar = header_owner()
     def explore(hdr):
         hit = []
         def obs(nd, env):
             if nd["id"] in mm_ids:
                 hit.append(1)
         env = {p["n"]: A for p in a.params if p["n"] in used_params}     # the same arguments as given to the writer; the others are unknown
+        if H is None:
+            raise AnalysisBroken("no function of shmem.c reads a struct hwloc_shmem_header for adopt")
+        if H is a:
+            for fld, v in hdr.items():
+                env["%s.%s" % (hvar, fld)] = v
+            out = peval.PathEval(P, a, env, is_effect=lambda *z: False, through_effects=True, observe=obs, maxstates=60000).run()
+            rets = set((t[1], str(t[2])) for t in out.terminals if t[0] == "return")
+            return bool(hit), rets
+        import extent
+        cenv = dict(env)
+        for k3, d3 in extent.single_defs(a).items():
+            if cval(strip(d3)) is not None:
+                cenv.setdefault(k3, cval(strip(d3)))
+        calls = list(a.calls(H.name))
+        genv = {}
+        for i2, p2 in enumerate(H.params):
+            if calls and i2 < len(args(calls[0])):
+                av = peval.Evaluator(a, cenv).ev(args(calls[0])[i2])
+                if av is not None:
+                    genv[p2["n"]] = av
         for fld, v in hdr.items():
-            env["header." + fld] = v
-        out = peval.PathEval(P, a, env, is_effect=lambda *z: False, through_effects=True, observe=obs, maxstates=60000).run()
+            genv["%s.%s" % (hvar, fld)] = v
+        hout = peval.PathEval(P, H, genv, is_effect=lambda *z: False, through_effects=True, maxstates=60000).run()
+        hrets = set((t[1], str(t[2])) for t in hout.terminals if t[0] == "return")
+        forced = 0 if any(v == 0 for v, e in hrets) else -1
+        out = peval.PathEval(P, a, env, is_effect=lambda *z: False, through_effects=True, observe=obs, maxstates=60000, call_values={H.name: forced}).run()
         rets = set((t[1], str(t[2])) for t in out.terminals if t[0] == "return")
+        if forced == -1:
+            # adopt fails where the helper failed: the errno values are the helper's
+            rets = set((v, e) for v, e in rets if v != -1) | hrets
         return bool(hit), rets
     n = 0
     base_ok = None
